@@ -101,6 +101,31 @@ func chunkTerm(c []value) *Term {
 	return t
 }
 
+// sha64 is SHA-256 of a 64-byte block: the real function on concrete bytes, the uninterpreted
+// function SHA64 : BitVec 512 -> BitVec 256 otherwise.  Merkleisation and crypto/sha256.Sum256
+// share it, so code that hashes root||domain directly is recognised as equal to the SSZ container.
+func (i *interpreter) sha64(left, right []value) []value {
+	both := [][]value{left, right}
+	if allConcrete(both) {
+		var buf [64]byte
+		for k := 0; k < 32; k++ {
+			buf[k] = left[k].(byte)
+			buf[32+k] = right[k].(byte)
+		}
+		r := sha256.Sum256(buf[:])
+		return fromBytes(r[:])
+	}
+	i.w.solver.AddPreamble("(declare-fun SHA64 ((_ BitVec 512)) (_ BitVec 256))")
+	arg := newTerm("concat", 512, chunkTerm(left), chunkTerm(right))
+	h := App("SHA64", 256, arg)
+	out := make([]value, 32)
+	for k := 0; k < 32; k++ {
+		hi := 255 - 8*k
+		out[k] = symv{types.Uint8, newTerm(fmt.Sprintf("(_ extract %d %d)", hi, hi-7), 8, h)}
+	}
+	return out
+}
+
 func (i *interpreter) merkleize(chunks [][]value) []value {
 	if len(chunks) == 0 {
 		return chunkOf(nil)
@@ -108,36 +133,23 @@ func (i *interpreter) merkleize(chunks [][]value) []value {
 	if len(chunks) == 1 {
 		return chunks[0]
 	}
-	if allConcrete(chunks) {
-		cs := make([][32]byte, len(chunks))
-		for k, c := range chunks {
-			for j := range c {
-				cs[k][j] = c[j].(byte)
-			}
+	depth := 0
+	for (1 << depth) < len(chunks) {
+		depth++
+	}
+	layer := chunks
+	for d := 0; d < depth; d++ {
+		if len(layer)%2 == 1 {
+			layer = append(layer[:len(layer):len(layer)], fromBytes(zeroHashes[d][:]))
 		}
-		r := merkleizeConcrete(cs)
-		return fromBytes(r[:])
+		next := make([][]value, len(layer)/2)
+		for k := range next {
+			next[k] = i.sha64(layer[2*k], layer[2*k+1])
+		}
+		layer = next
 	}
-	n := len(chunks)
-	name := fmt.Sprintf("H%d", n)
-	decl := "(declare-fun " + name + " ("
-	for k := 0; k < n; k++ {
-		decl += "(_ BitVec 256) "
-	}
-	decl += ") (_ BitVec 256))"
-	i.w.solver.AddPreamble(decl)
-	args := make([]*Term, n)
-	for k, c := range chunks {
-		args[k] = chunkTerm(c)
-	}
-	h := App(name, 256, args...)
-	out := make([]value, 32)
-	for k := 0; k < 32; k++ {
-		hi := 255 - 8*k
-		out[k] = symv{types.Uint8, newTerm(fmt.Sprintf("(_ extract %d %d)", hi, hi-7), 8, h)}
-	}
-	i.hashes = append(i.hashes, hashRecord{n: n, in: chunks, out: out})
-	return out
+	i.hashes = append(i.hashes, hashRecord{n: len(chunks), in: chunks, out: layer[0]})
+	return layer[0]
 }
 
 type hashRecord struct {
@@ -251,6 +263,36 @@ func addSSZModel(P *Program) {
 			return tuple{zero(arrT), i.mkError("ssz: incorrect size")}
 		}
 		return tuple{array(append([]value(nil), hs.chunks[0]...)), iface{}}
+	}
+	h["crypto/sha256.Sum256"] = func(i *interpreter, fr *frame, fn *ssa.Function, args []value) value {
+		data := args[0].([]value)
+		if !containsSym(data) {
+			r := sha256.Sum256(goBytes(data, "sha256.Sum256"))
+			return array(fromBytes(r[:]))
+		}
+		if len(data) == 64 {
+			return array(i.sha64(data[:32], data[32:]))
+		}
+		// other lengths: an uninterpreted function per length
+		n := len(data)
+		name := fmt.Sprintf("SHA256len%d", n)
+		i.w.solver.AddPreamble(fmt.Sprintf("(declare-fun %s ((_ BitVec %d)) (_ BitVec 256))", name, 8*n))
+		var t *Term
+		for k := 0; k < n; k++ {
+			_, bt, _ := intTerm(data[k])
+			if t == nil {
+				t = bt
+			} else {
+				t = newTerm("concat", t.sort+8, t, bt)
+			}
+		}
+		h := App(name, 256, t)
+		out := make(array, 32)
+		for k := 0; k < 32; k++ {
+			hi := 255 - 8*k
+			out[k] = symv{types.Uint8, newTerm(fmt.Sprintf("(_ extract %d %d)", hi, hi-7), 8, h)}
+		}
+		return out
 	}
 	h[sszPkg+".ErrBytesLengthFn"] = func(i *interpreter, fr *frame, fn *ssa.Function, args []value) value {
 		return i.mkError(fmt.Sprintf("%v (%v): expected %v and %v found", toString(args[0]), "bytes", toString(args[2]), toString(args[1])))
